@@ -1,6 +1,6 @@
 // C16 — text and option parsing never crashes, corrupts memory or hangs on any input
 // VF-VARIANT: san
-// VF-RULE: E2 under ASan+UBSan+libstdc++ assertions: for each entry point (one 'ep:' space each) every letter sequence of length 0..L over that entry point's alphabet of grammar-significant letters (characters, or words for description languages) times every listed option combination is fed to the real code; plus one 'rep:' space per entry point with every word w of 1..3 letters repeated to 64 and to 4096 bytes times every option combination. Tables accepted by read() are edited by each of 40 edits, eight of them two- or three-step histories in which a rejected call (wrong cell count, duplicate or too many names) or an assignment is followed by look-ups under the name it carried. A case is non-trivial when its input is non-empty. Outcome of every case must be 'returned' or 'raised bpp::Exception'; foreign exceptions are caught by type, sanitizer reports/signals by the supervisor, non-termination by a per-case CPU-time watchdog.
+// VF-RULE: E2 under ASan+UBSan+libstdc++ assertions: for each entry point (one 'ep:' space each) every letter sequence of length 0..L over that entry point's alphabet of grammar-significant letters (characters, or words for description languages) times every listed option combination is fed to the real code; plus one 'rep:' space per entry point with every word w of 1..3 letters repeated to 64 and to 4096 bytes times every option combination. Tables accepted by read() are edited by each of 42 edits, ten of them two- or three-step histories in which a rejected call (wrong cell count, duplicate or too many names) or an assignment is followed by look-ups under the name it carried. A case is non-trivial when its input is non-empty. Outcome of every case must be 'returned' or 'raised bpp::Exception'; foreign exceptions are caught by type, sanitizer reports/signals by the supervisor, non-termination by a per-case CPU-time watchdog.
 // VF-BOUND: byte strings up to 4 KiB are replaced by: all strings of length <= 5 (quick) / <= 7 (thorough) over 2..13 letters per entry point (the length is lowered per entry point so that a space stays under 100k (quick) / 2.5M (thorough) cases — the length actually used is in each space name), plus the repetition families w^k (|w|<=3 letters) of 64 and 4096 bytes. Inputs needing more distinct significant letters than that and lying outside the repetition families are not reached.
 // VF-LEVEL: bounded-exhaustive differential crash check: every listed (entry point, option combination, string) case is executed on the real code under sanitizers; no sampling, no mutation-based search
 // VF-ASSUME: ASan/UBSan/_GLIBCXX_ASSERTIONS detect the memory and arithmetic errors the property names (iterator arithmetic before begin() of a std::string is only seen when the corrupted result is read back);; a case that uses more than 0.1 s (short inputs; typical cases take 1-100 microseconds) / 2 s (4 KiB inputs; typical 0.1-400 ms) of CPU time does not terminate;; the character classification of the C locale
@@ -485,6 +485,15 @@ add("ApplicationTools.range-vector-readers", {"1", "9", ",", "1:3", "9:1", "(", 
       {"DataTable::deleteRow(name) twice, addRow(name,row) again", [](DataTable& t) {
          try { t.deleteRow("x"); } catch (bpp::Exception&) {} try { t.deleteRow("x"); } catch (bpp::Exception&) {}
          try { t.addRow("x", vector<string>(t.getNumberOfColumns(), "v")); } catch (bpp::Exception&) {} try { use(t.getRow("x")); } catch (bpp::Exception&) {} if (t.hasRowNames()) use(t.getRowNames()); }},
+      {"DataTable::operator= from a table without names, then names by index", [](DataTable& t) {
+         DataTable o(3, 2); t = o; use(t.getNumberOfRows()); use(t.getNumberOfColumns());
+         if (t.hasRowNames()) { use(t.getRowNames()); try { use(t.getRowName(t.getNumberOfRows() - 1)); } catch (bpp::Exception&) {} }
+         if (t.hasColumnNames()) { use(t.getColumnNames()); try { use(t.getColumnName(t.getNumberOfColumns() - 1)); } catch (bpp::Exception&) {} }
+         try { use(t.getRow(2)); } catch (bpp::Exception&) {} }},
+      {"DataTable::deleteRow(i) beyond the rows of a table that has row names but no column", [](DataTable& t) {
+         DataTable z(0); try { z.addRow("r1", vector<string>()); } catch (bpp::Exception&) {}
+         try { z.deleteRow(5); } catch (bpp::Exception&) {} use(z.getNumberOfRows()); if (z.hasRowNames()) use(z.getRowNames());
+         try { z.deleteRow(0); } catch (bpp::Exception&) {} use(z.getNumberOfRows()); (void)t; }},
       {"DataTable::operator= from a table with other names, then by-name access", [](DataTable& t) {
          DataTable o(2, 1); try { o.setColumnNames({"x"}); o.setRowNames({"q", "y"}); } catch (bpp::Exception&) {}
          t = o; use(t.getNumberOfRows()); use(t.getNumberOfColumns());
